@@ -154,19 +154,14 @@ theorem canDeliver_shr {n m : Net} (h : n.Shr m) (x y : Nat) : canDeliver m x y 
 
 /-! ### the disconnect chain only shrinks -/
 
-theorem shr_chain (f : Nat) :
-    (∀ (n : Net) (i cid : Nat), n.Shr (disconnect f n i cid)) ∧ (∀ (n : Net) (j cid : Nat), n.Shr (onDisconnect f n j cid)) ∧
-    (∀ (n : Net) (j cid : Nat), n.Shr (remoteLogout f n j cid)) := by
+theorem shr_chain (f : Nat) : ∀ (h : Hop) (n : Net) (i cid : Nat), n.Shr (chain f h n i cid) := by
   induction f with
-  | zero =>
-    refine ⟨?_, ?_, ?_⟩ <;> intro n i cid
-    · unfold disconnect; exact shr_stuck n
-    · unfold onDisconnect; exact shr_stuck n
-    · unfold remoteLogout; exact shr_stuck n
+  | zero => intro h n i cid; unfold chain; exact shr_stuck n
   | succ f ih =>
-    obtain ⟨ihd, iho, ihr⟩ := ih
-    refine ⟨?_, ?_, ?_⟩ <;> intro n i cid
-    · unfold disconnect
+    intro h n i cid
+    cases h with
+    | disconnect =>
+      unfold chain
       split
       · exact Net.Shr.refl n
       · split
@@ -174,26 +169,27 @@ theorem shr_chain (f : Nat) :
         · have h1 : n.Shr (n.upd i (Node.dropConn cid)) := shr_upd n i _ (shr_dropConn cid)
           split
           · exact h1.trans (shr_upd _ i _ shr_localLogout)
-          · dsimp only
-            split
-            · exact h1.trans (iho _ _ _)
+          · split
+            · exact h1.trans (ih _ _ _ _)
             · exact h1
-    · unfold onDisconnect
+    | onDisconnect =>
+      unfold chain
       split
       · exact Net.Shr.refl n
       · split
         · split
-          · exact (ihd n i cid).trans (ihr _ _ _)
+          · exact (ih .disconnect n i cid).trans (ih _ _ _ _)
           · exact Net.Shr.refl n
-        · exact ihd n i cid
-    · unfold remoteLogout
+        · exact ih .disconnect n i cid
+    | remoteLogout =>
+      unfold chain
       split
       · exact Net.Shr.refl n
       · split
-        · exact (ihd n i cid).trans (shr_upd _ i _ (shr_dropSession cid))
+        · exact (ih .disconnect n i cid).trans (shr_upd _ i _ (shr_dropSession cid))
         · exact Net.Shr.refl n
 
-theorem shr_disconnect (f : Nat) (n : Net) (i cid : Nat) : n.Shr (disconnect f n i cid) := (shr_chain f).1 n i cid
+theorem shr_disconnect (f : Nat) (n : Net) (i cid : Nat) : n.Shr (disconnect f n i cid) := shr_chain f .disconnect n i cid
 
 theorem shr_forceLogout (n : Net) (j cid : Nat) : n.Shr (forceLogout n j cid) :=
   (shr_disconnect _ n j cid).trans (shr_upd _ j _ (shr_dropSession cid))
